@@ -347,7 +347,9 @@ var c18Variations = []variation{
 	{"dot-segment", true, func(s string, k int) (string, bool) {
 		i, j := pathSpan(s)
 		p := s[i:j]
-		ins := []string{"./", "x/../", "%2e/", "%2E/", "x/%2e%2E/", "x/.%2e/"}
+		// inserted segments; the last four stand for "the directory itself" and are only equivalent at the very end
+		// of a path that ends in '/' ("/a/x/.." == "/a/"), where the dot segment is followed by '?', '#' or the end
+		ins := []string{"./", "x/../", "%2e/", "%2E/", "x/%2e%2E/", "x/.%2e/", "x/..", ".", "%2e", "x/%2E%2e"}
 		// positions: after each '/'
 		var pos []int
 		for q := 0; q < len(p); q++ {
@@ -360,8 +362,11 @@ var c18Variations = []variation{
 			return "", false
 		}
 		at := pos[n/len(ins)]
+		if n%len(ins) >= 6 && at != len(p) {
+			return "", false
+		}
 		return s[:i] + p[:at] + ins[n%len(ins)] + p[at:] + s[j:], true
-	}, 18},
+	}, 30},
 	{"empty-fragment", false, func(s string, k int) (string, bool) {
 		if strings.Contains(s, "#") {
 			return "", false
